@@ -40,6 +40,9 @@ def configs(tier, seed):
     # traffic that is not a version 1 packet
     for ctx_ in ("alone", "after-quic-same-address", "inside-quic0-same-address"):
         out.append({"harness": "udp", "name": "udp-vn-%s" % ctx_, "n": None, "context": ctx_, "version_negotiation": True})
+    # a Retry-shaped datagram (long header type 3, version 1) between other hosts before / after a healthy QUIC connection
+    for ctx_ in ("before-quic-other-address", "after-quic-other-address"):
+        out.append({"harness": "udp", "name": "udp-retry-%s" % ctx_, "n": None, "context": ctx_, "retry_shaped": True})
     for lens in ([(3,), (6,), (5, 3)] if tier == "quick" else [(1,), (4,), (5,), (6,), (9,), (5, 3), (3, 5), (6, 6)]):
         out.append({"harness": "tcp", "name": "tcp-" + "+".join(str(x) for x in lens), "lens": list(lens)})
     for v in TLS_VICTIMS:
@@ -173,6 +176,13 @@ def _run_udp(cfg):
             c.assume(payload[1:5] == bytes(4))
             c.assume(payload[5] == dl)
             c.assume(payload[6 + dl] == sl)
+        elif cfg.get("retry_shaped"):
+            dl, sl = sym_choice("rt_dcid_len", [0, 4]), sym_choice("rt_scid_len", [4, 8])
+            payload = sym_bytes("udp", 7 + dl + sl + 2 + 16)
+            c.assume((payload[0] & 0xF0) == 0xF0)
+            c.assume(payload[1:5] == b"\x00\x00\x00\x01")
+            c.assume(payload[5] == dl)
+            c.assume(payload[6 + dl] == sl)
         else:
             payload = sym_bytes("udp", cfg["n"])
         if cfg.get("short_header"):
@@ -184,6 +194,8 @@ def _run_udp(cfg):
         if inside and blocks:
             pos = sym_choice("foreign_pos", list(range(len(blocks) - 2, len(blocks) + 1)))
             blocks.insert(pos, (blocks[pos - 1][0] + 0.5, foreign))
+        elif cfg["context"].startswith("before"):
+            blocks.insert(0, (50.0, foreign))
         else:
             blocks.append((500.0, foreign))
         try:
@@ -436,6 +448,8 @@ def replay(cfg, viol):
             opts = list(range(len(pk) - 2, len(pk) + 1))
             pos = opts[inp.get("foreign_pos", 0)]
             pk.insert(pos, (fr, pk[pos - 1][1] + 500000))
+        elif cfg["context"].startswith("before"):
+            pk.insert(0, (fr, 50000000))
         else:
             pk.append((fr, 500000000))
         r = e2e.run_tlexport(pk, e2e.keylog_text(kl))
